@@ -186,6 +186,28 @@ func classifyPanicSite(w *World, fn *ssa.Function, in ssa.Instruction, groups ma
 			return "type-assert", "G8", "asserted type agrees with the pointer type at every call site (C06 R06.5 definers, newUnknownCLIOption)"
 		}
 		return "type-assert", "", "type assertion without comma-ok"
+	case *ssa.FieldAddr:
+		// a field of a record fetched from a map: the zero value of a missing key is a nil pointer
+		var lk *ssa.Lookup
+		commaOK := false
+		switch v := x.X.(type) {
+		case *ssa.Lookup:
+			lk = v
+		case *ssa.Extract:
+			if l2, ok := v.Tuple.(*ssa.Lookup); ok && v.Index == 0 {
+				lk, commaOK = l2, true
+			}
+		}
+		if lk == nil {
+			return "", "", ""
+		}
+		if _, isMap := lk.X.Type().Underlying().(*types.Map); !isMap {
+			return "", "", ""
+		}
+		if _, isPtr := x.X.Type().Underlying().(*types.Pointer); !isPtr {
+			return "", "", ""
+		}
+		return classifyMapValueDeref(w, fn, x, lk, commaOK)
 	case *ssa.IndexAddr:
 		return classifyIndex(w, fn, in, x.X, x.Index, groups, nonEmpty)
 	case *ssa.Index:
@@ -199,6 +221,70 @@ func classifyPanicSite(w *World, fn *ssa.Function, in ssa.Instruction, groups ma
 		return classifySlice(w, fn, x, nonEmpty)
 	}
 	return "", "", ""
+}
+
+// classifyMapValueDeref: GM guard rules for `m[k].f` where m maps to pointers.
+func classifyMapValueDeref(w *World, fn *ssa.Function, fa *ssa.FieldAddr, lk *ssa.Lookup, commaOK bool) (string, string, string) {
+	kind := "map-value-deref"
+	b := fa.Block()
+	for _, f := range factsAt(b) {
+		// GM1: the comma-ok result was tested
+		if commaOK && f.Op == token.ILLEGAL && f.Truth {
+			if ex, ok := f.X.(*ssa.Extract); ok && ex.Index == 1 && ex.Tuple == ssa.Value(lk) {
+				return kind, "GM1", "dereferenced only when the lookup reported ok"
+			}
+		}
+		// GM2: the value was compared with nil
+		if f.Op == token.NEQ && f.Y != nil && (f.X == fa.X && isNilConst(f.Y) || f.Y == fa.X && isNilConst(f.X)) {
+			return kind, "GM2", "dereferenced under value != nil"
+		}
+	}
+	// GM3: the key is a key of the same map: the loop variable of a range over it, or an element of a slice that
+	// only collects such loop variables (the sorted key list idiom)
+	if keyOfSameMap(lk.Index, lk.X, map[ssa.Value]bool{}) {
+		return kind, "GM3", "the key was obtained by ranging over the same map"
+	}
+	return kind, "", "field of a map element that may be missing (nil pointer): " + lk.String()
+}
+
+// keyOfSameMap: k is a range key of map m (same collection), directly or through a slice of collected keys.
+func keyOfSameMap(k, m ssa.Value, seen map[ssa.Value]bool) bool {
+	if seen[k] {
+		return true
+	}
+	seen[k] = true
+	switch x := k.(type) {
+	case *ssa.Extract:
+		if nx, ok := x.Tuple.(*ssa.Next); ok && x.Index == 1 {
+			if rg, ok := nx.Iter.(*ssa.Range); ok {
+				return sameColl(rg.X, m)
+			}
+		}
+	case *ssa.UnOp:
+		// element of a slice: every element of the slice must be a key of m
+		if x.Op == token.MUL {
+			if ia, ok := x.X.(*ssa.IndexAddr); ok {
+				els, spreads, ok := elementsOf(ia.X, map[ssa.Value]bool{})
+				if !ok || len(spreads) > 0 || len(els) == 0 {
+					return false
+				}
+				for _, e := range els {
+					if !keyOfSameMap(e, m, seen) {
+						return false
+					}
+				}
+				return true
+			}
+		}
+	case *ssa.Phi:
+		for _, e := range x.Edges {
+			if !keyOfSameMap(e, m, seen) {
+				return false
+			}
+		}
+		return true
+	}
+	return false
 }
 
 func arrayLenOfPtr(t types.Type) (int64, bool) {
